@@ -1,3 +1,4 @@
+import re
 """Control-flow primitives over a facts.Body (unwind edges already removed)."""
 
 
@@ -260,6 +261,9 @@ def reach_threaded(body, start, removed_blocks=()):
     return seen
 
 
+_STDENUM = re.compile(r"(?:^|::)(Result|Option|ControlFlow)$")
+
+
 def reach_const(body, start, known=None, limit=20000):
     """blocks reachable from `start` under forward propagation of integer/bool constants held in whole locals:
     a SwitchInt on a local whose value is known on the path follows only the selected arm (path sensitive for the
@@ -291,6 +295,18 @@ def reach_const(body, start, known=None, limit=20000):
                 o = s.rv.ops[0]
                 if o.place is not None and not o.place.proj and o.place.local in k and k[o.place.local] in (0, 1):
                     v = 1 - k[o.place.local]
+            # variants of Result / Option / ControlFlow values held in whole locals (`x = Err(e)` ... `match x`, `x?`)
+            vv = None
+            if s.rv.kind == 'agg' and s.rv.agg == 'adt' and _STDENUM.search(s.rv.raw.get('adt') or ''):
+                vv = (_STDENUM.search(s.rv.raw['adt']).group(1), s.rv.raw.get('variant', 0))
+            elif s.rv.kind == 'use' and s.rv.ops[0].place is not None and not s.rv.ops[0].place.proj and ('v', s.rv.ops[0].place.local) in k:
+                vv = k[('v', s.rv.ops[0].place.local)]
+            elif s.rv.kind == 'discr' and s.rv.place is not None and not s.rv.place.proj and ('v', s.rv.place.local) in k:
+                v = k[('v', s.rv.place.local)][1]
+            if vv is None:
+                k.pop(('v', l), None)
+            else:
+                k[('v', l)] = vv
             if v is None:
                 k.pop(l, None)
             else:
@@ -299,6 +315,12 @@ def reach_const(body, start, known=None, limit=20000):
         succ = list(body.succ[blk_i])
         if t.kind == 'call' and t.dest is not None and not t.dest.proj:
             k.pop(t.dest.local, None)
+            k.pop(('v', t.dest.local), None)
+            if re.search(r'Try>::branch$', t.callee_res() or '') and t.args and t.args[0].place is not None and not t.args[0].place.proj and \
+                    ('v', t.args[0].place.local) in k:
+                kind, idx = k[('v', t.args[0].place.local)]
+                # Result: Ok(0) -> Continue(0), Err(1) -> Break(1); Option: None(0) -> Break(1), Some(1) -> Continue(0)
+                k[('v', t.dest.local)] = ('ControlFlow', idx if kind == 'Result' else 1 - idx)
         if t.kind == 'switch' and t.discr.place is not None and not t.discr.place.proj and t.discr.place.local in k:
             v = k[t.discr.place.local]
             tgt = t.otherwise
